@@ -117,6 +117,9 @@ pub fn sweep_flavours() -> Outcome {
         2 => Some(vec![ci(7103), ci(7102)]),
         _ => Some(vec![]),
     };
+    // with neither named: the struct literal with both fields None, or the
+    // flavour's `Config::default()` (which may itself name the local server)
+    let from_default = u == 0 && c == 0 && choose_free(2) == 1;
     if flavour == 0 && (u == 2 || c == 2 || u == 4 || c == 3) {
         // the standalone config names a single url / connection
         return Outcome { obs: 0, violations: vec![] };
@@ -128,7 +131,11 @@ pub fn sweep_flavours() -> Outcome {
     // Result: Err(kind) from builder, or Ok(()) after one get() attempt
     let built: Result<Result<(), String>, Box<dyn std::any::Any + Send>> = catch_unwind(AssertUnwindSafe(|| match flavour {
         0 => {
-            let cfg = deadpool_redis::Config { url: urls.clone().map(|v| v[0].clone()), connection: conns.clone().map(|v| v[0].clone()), pool: Some(pool_cfg()) };
+            let cfg = if from_default {
+                deadpool_redis::Config { pool: Some(pool_cfg()), ..Default::default() }
+            } else {
+                deadpool_redis::Config { url: urls.clone().map(|v| v[0].clone()), connection: conns.clone().map(|v| v[0].clone()), pool: Some(pool_cfg()) }
+            };
             match cfg.builder() {
                 Err(ConfigError::UrlAndConnectionSpecified) => Err("both".to_string()),
                 Err(ConfigError::Redis(_)) => Err("redis".to_string()),
@@ -142,7 +149,11 @@ pub fn sweep_flavours() -> Outcome {
             }
         }
         1 => {
-            let cfg = deadpool_redis::cluster::Config { urls: urls.clone(), connections: conns.clone(), pool: Some(pool_cfg()), read_from_replicas: false };
+            let cfg = if from_default {
+                deadpool_redis::cluster::Config { pool: Some(pool_cfg()), ..Default::default() }
+            } else {
+                deadpool_redis::cluster::Config { urls: urls.clone(), connections: conns.clone(), pool: Some(pool_cfg()), read_from_replicas: false }
+            };
             match cfg.builder() {
                 Err(ConfigError::UrlAndConnectionSpecified) => Err("both".to_string()),
                 Err(ConfigError::Redis(_)) => Err("redis".to_string()),
@@ -156,13 +167,17 @@ pub fn sweep_flavours() -> Outcome {
             }
         }
         _ => {
-            let cfg = deadpool_redis::sentinel::Config {
-                urls: urls.clone(),
-                connections: conns.clone(),
-                pool: Some(pool_cfg()),
-                master_name: "mymaster".into(),
-                server_type: deadpool_redis::sentinel::SentinelServerType::Master,
-                node_connection_info: None,
+            let cfg = if from_default {
+                deadpool_redis::sentinel::Config { pool: Some(pool_cfg()), ..Default::default() }
+            } else {
+                deadpool_redis::sentinel::Config {
+                    urls: urls.clone(),
+                    connections: conns.clone(),
+                    pool: Some(pool_cfg()),
+                    master_name: "mymaster".into(),
+                    server_type: deadpool_redis::sentinel::SentinelServerType::Master,
+                    node_connection_info: None,
+                }
             };
             match cfg.builder() {
                 Err(ConfigError::UrlAndConnectionSpecified) => Err("both".to_string()),
@@ -188,7 +203,7 @@ pub fn sweep_flavours() -> Outcome {
         (None, Some(_)) => [7103, 7102].into(),
         _ => BTreeSet::new(),
     };
-    let desc = format!("flavour {} urls {:?} connections {:?}", ["standalone", "cluster", "sentinel"][flavour], urls, conns.as_ref().map(|v| v.iter().map(|c| format!("{:?}", c.addr)).collect::<Vec<_>>()));
+    let desc = format!("flavour {}{} urls {:?} connections {:?}", ["standalone", "cluster", "sentinel"][flavour], if from_default { " Config::default()" } else { "" }, urls, conns.as_ref().map(|v| v.iter().map(|c| format!("{:?}", c.addr)).collect::<Vec<_>>()));
     let empty_list = u == 4 || c == 3;
     match built {
         Err(p) => bad(&mut viol, "panic", format!("{}: panicked: {}", desc, explorer::panic_msg(&p))),
@@ -232,7 +247,15 @@ pub fn sweep_flavours() -> Outcome {
                 }
             }
             (false, false) => {
-                let allowed: BTreeSet<u16> = if flavour == 2 { [6379, 26379].into() } else { [6379].into() };
+                // the default local server: 6379, and for the sentinel flavour
+                // the local sentinel on 26379 - a sentinel config with both
+                // fields None may fall back to either, its Default names the
+                // sentinel port
+                let allowed: BTreeSet<u16> = match (flavour, from_default) {
+                    (2, true) => [26379].into(),
+                    (2, false) => [6379, 26379].into(),
+                    _ => [6379].into(),
+                };
                 if r != Ok(()) {
                     bad(&mut viol, "default-config-rejected", format!("{}: {:?}", desc, r));
                 } else if dialled.is_empty() || !dialled.is_subset(&allowed) {
@@ -249,7 +272,7 @@ pub fn sweep_flavours() -> Outcome {
         },
     }
     let mut h = std::collections::hash_map::DefaultHasher::new();
-    (flavour, u, c, &dialled).hash(&mut h);
+    (flavour, u, c, from_default, &dialled).hash(&mut h);
     note_state(h.finish());
     Outcome { obs: h.finish(), violations: viol }
 }
